@@ -221,9 +221,13 @@ def transform_fns(D: int) -> List[Fn]:
                         p.add_(torch.sign(r) * (0.04 + 0.06 * r.abs()))
             return t
 
-        for mode in ("points", "disp", "tensor", "inverse-points", "inverse-disp", "inverse-tensor", "image", "pointset"):
+        for mode in ("points", "disp", "tensor", "inverse-points", "inverse-disp", "inverse-tensor", "image", "pointset", "points-after-data_"):
             def make(build=build, mode=mode, name=name):
                 t = build()
+                if mode == "points-after-data_":  # values assigned from plain tensors (data_, as fit() / grid_() / the setters do): still optimisable
+                    for m in t.modules():
+                        if hasattr(m, "data_") and isinstance(getattr(m, "params", None), torch.nn.Parameter):
+                            m.data_(m.params.detach().clone())
                 params = list(t.parameters())
                 pts = rnd(1, 5, D, seed=3, scale=0.7)
                 w = rnd(1, 5, D, seed=4)
@@ -241,7 +245,7 @@ def transform_fns(D: int) -> List[Fn]:
                     for p, v in zip(params, vals):
                         if p is not v:
                             p.data.copy_(v)
-                    if mode == "points":
+                    if mode in ("points", "points-after-data_"):
                         return (as64(t(pts)) * w).sum()
                     if mode == "disp":
                         t.update()
@@ -288,6 +292,9 @@ def functional_fns(D: int) -> List[Fn]:
     grid_t = Grid(size=tuple(reversed(sp)))
     coords = grid_t.coords(dtype=T64).unsqueeze(0) * 0.9 + 0.013
     add("grid_sample", lambda v: (U.grid_sample(v[0], v[1], mode="linear", padding="border") * wI).sum(), [img, coords], ["image", "coords"])
+    add("grid_sample[padding=0.5]", lambda v: (U.grid_sample(v[0], v[1], mode="linear", padding=0.5) * wI).sum(), [img, coords], ["image", "coords"])
+    add("sample_image[padding=-1]", lambda v: (U.sample_image(v[0], v[1].reshape(1, -1, D), mode="linear", padding=-1.0) * rnd(1, 2, coords.numel() // D, seed=2)).sum(),
+        [img, coords], ["image", "coords"])
     add("warp_image", lambda v: (U.warp_image(v[0], grid_t.coords(dtype=T64).unsqueeze(0), flow=U.move_dim(v[1], 1, -1), mode="linear", padding="border") * wI).sum(), [img, flow(31)], ["image", "flow"])
     wF = rnd(1, D, *sp, seed=9)
     add("expv", lambda v: (U.expv(v[0], steps=3) * wF).sum(), [flow(32)], ["velocity"])
@@ -347,14 +354,20 @@ def record(fn: Fn, k0: int, ndirs: int, seed: int) -> Tuple[List[dict], Optional
         f, tensors, labels = fn.make()
         vals = [t for t in tensors]
         for t in vals:
-            t.requires_grad_(True)
+            if not isinstance(t, torch.nn.Parameter):  # a module's own Parameter must already be optimisable: never switch it on here
+                t.requires_grad_(True)
         SAW_F32[0] = False
         with torch.enable_grad():
             F0 = f(vals)
         if not isinstance(F0, Tensor) or F0.numel() != 1:
             return [], "not scalar"
-    except Exception as ex:  # the operation cannot be built / called in this form: not judged
-        return [], f"{type(ex).__name__}: {str(ex)[:100]}"
+    except Exception as ex:
+        msg = str(ex)
+        if isinstance(ex, RuntimeError) and ("in-place" in msg or "inplace" in msg):
+            # the operation modifies one of its differentiable inputs in place: not differentiable w.r.t. that input
+            return [dict(op=fn.name, family=fn.family, wrt="(input modified in place)", k=k0 + 1, reaches=False, finite=True, pw=False, gd=0, fd1=1000000, fd2=1000000,
+                         asym1=0, asym2=0, noise=0, raw=dict(gd=0.0, fd=[float("nan")] * 2, F=float("nan"), eps=0.0, f32=False, backward_error=msg[:160]))], None
+        return [], f"{type(ex).__name__}: {msg[:100]}"  # the operation cannot be built / called in this form: not judged
     backward_error = None
     try:
         # an output detached from all inputs is not "uncallable": the difference quotients decide whether a gradient is missing
